@@ -54,6 +54,84 @@ func propDefs() map[string]propDef {
 			[]string{`^ensures:(err|one|sendone|send|cancel)$`, `^pre:`}),
 		Explain: "postconditions over the ghost traces out (events written) and sent(logins): write failure returns the error and forwards nothing; otherwise exactly one succeeded event is written and then either exactly one login is sent whose Source is the pointer that was written, whose PID is Atoi(pid) and whose CredUserID is the certificate key ID or 'unknown', stamped after the write, or the context was cancelled; failure handlers never send",
 	}
+	const st = "processors/auditd/sessiontracker."
+	trk := func(rl, ae, wc, ta, du, dl []string) []unit {
+		var us []unit
+		add := func(fn string, inc []string) {
+			if inc != nil {
+				us = append(us, u(st+fn, inc...))
+			}
+		}
+		add("(*sessionTracker).RemoteLogin", rl)
+		add("(*sessionTracker).AuditdEvent", ae)
+		add("(*user).writeAndClearCache", wc)
+		add("(*user).toAuditEvent", ta)
+		add("(*sessionTracker).DeleteUsersWithoutLoginsBefore", du)
+		add("(*sessionTracker).DeleteRemoteUserLoginsBefore", dl)
+		return us
+	}
+	all := []string{}
+	syncmap := []unit{u("internal/common.(*GenericSyncMap).Load"), u("internal/common.(*GenericSyncMap).Has"), u("internal/common.(*GenericSyncMap).Store"),
+		u("internal/common.(*GenericSyncMap).Delete"), u("internal/common.(*GenericSyncMap).DeleteUnsafe"), u("internal/common.(*GenericSyncMap).Len"),
+		u("internal/common.(RemoteUserLogin).Validate")}
+	noDisp := func(us []unit) []unit {
+		for i := range us {
+			us[i].Exclude = []string{`UserOK\.1\.2$`}
+		}
+		return us
+	}
+	m["C01"] = propDef{ID: "C01", Level: "proof",
+		Units: append(noDisp(trk(
+			[]string{`^ensures:(c01|inv|prefix|invalid|err)`, `^inv-`, `^pre:`, safetyRe},
+			[]string{`^ensures:(c01|inv|prefix|openbound|emit)`, `^assert_at:`, `^pre:`, safetyRe},
+			[]string{`^ensures:(okall|errall|prefix)`, `^assert_at:`, `^inv-`, `^pre:`, safetyRe},
+			all,
+			[]string{`^ensures:(inv|frame)`, `^inv-`},
+			[]string{`^ensures:(inv|frame)`, `^inv-`})), syncmap...),
+		Assume: []string{"history assumption of the property: each sshd PID logs in once and PIDs/session IDs are not reused inside the history (reuse is C09); the invariant itself is proved without it",
+			"event.Process.PID is the PID the kernel logged (go-libaudit aucoalesce, dependency)"},
+		Explain: "data-structure invariant TrackerInv (bound login has the session's PID, parked login is filed under its PID, srcPID equals the PID of the LOGIN record that opened the session (ghost g_opened), users distinct) proved inductive over the four public operations from an arbitrary invariant-satisfying state — hence for every history, any number of sessions and PIDs, any placement of cleanup; every written event is asserted at its write site to render the audit event with the identity of the session's own login (ghost provenance out[i].by / out[i].src); postconditions: every event appended by RemoteLogin carries rul's identity and g_opened[auditId] == rul.PID, every event appended by AuditdEvent carries the identity of the login bound to event.Session whose PID equals g_opened[event.Session]",
+	}
+	m["C02"] = propDef{ID: "C02", Level: "proof",
+		Units: noDisp(trk(
+			[]string{`^ensures:(bind|park|inv|prefix|err)`, `^inv-`, `^pre:`},
+			[]string{`^ensures:(open|openbound|held|emit|inv|prefix|err)`, `^pre:`},
+			[]string{`^ensures:`, `^inv-`, `^pre:`, `^frame:`},
+			nil, nil, nil)),
+		Assume: []string{"EventWriter.Write appends exactly one event or fails without effect (assumed contract)"},
+		Explain: "per-operation whole-view postconditions over the ghost trace out with provenance: an event for an unbound session is appended to the held queue (queue' == queue ++ [e], nothing emitted); for a bound session exactly [render(e)] is emitted; RemoteLogin binding a session emits render(queue) in order (out[N+k].src == queue[k]) and empties the queue; a LOGIN record meeting a parked login emits exactly its own rendering; the invariant 'bound => queue empty' makes these compose, by induction over operations, to 'every event from the LOGIN record to the credential-disposal record emitted exactly once, in processing order'; writeAndClearCache's loop invariant carries the in-order claim for any queue length and the write-failure-at-index-i case",
+	}
+	m["C04"] = propDef{ID: "C04", Level: "proof",
+		Units: trk(
+			[]string{`^ensures:(c01|invalid|park)`},
+			[]string{`^ensures:(nosess|untracked|badpid|held|open|c01|emit)`, `^pre:`},
+			nil, nil,
+			[]string{`^ensures:frame`}, []string{`^ensures:frame`}),
+		Assume: []string{"the kernel's unset session 4294967295 reaches the tracker as the string \"unset\" (auparse, dependency)"},
+		Explain: "postconditions that hold after every single operation (hence at every prefix of every history): no session ID / 'unset' => nothing emitted and nothing modified; unknown session and not a LOGIN record => same; known but uncorrelated session => nothing emitted (event held); LOGIN without a parked login => nothing emitted; every emitted event has auditId == the processed event's session and the identity of that session's bound login; cleanup emits nothing",
+	}
+	m["C09"] = propDef{ID: "C09", Level: "proof",
+		Units: trk(
+			[]string{`^ensures:inv:TrackerInv.*UserOK\.1\.2$`, `^ensures:(bind|c01)`},
+			[]string{`^ensures:inv:TrackerInv.*UserOK\.1\.2$`, `^ensures:(emit|untracked|open)`},
+			nil, nil,
+			[]string{`^ensures:inv:TrackerInv.*UserOK\.1\.2$`}, []string{`^ensures:inv:TrackerInv.*UserOK\.1\.2$`}),
+		Explain: "invariant clause I7: a tracked session whose credential-disposal record has been processed (ghost g_disp, set when the record is processed, reset when a LOGIN record opens a new incarnation of the ID) is never bound — i.e. once the disposal record has been emitted (directly, or released from the hold queue by a late login) the session has left the table, so no later login can be bound to it and a reused PID binds to the next session opened by it; AuditdEvent's postcondition: CRED_DISP on a bound session <=> the session is removed",
+	}
+	m["C14"] = propDef{ID: "C14", Level: "proof",
+		Units: trk(
+			nil,
+			[]string{`^assert_at:`},
+			[]string{`^assert_at:`},
+			all, nil, nil),
+		Assume: []string{"what aucoalesce puts into Result/Summary for a record group (dependency)"},
+		Explain: "postcondition of the real toAuditEvent: type UserAction, component auditd, timestamp == the audit event's, auditId == its session, outcome succeeded iff Result == success, metadata action/how/object from the summary, process_args present iff the event has arguments, subjects a fresh copy equal to the login's (loop invariant of the copy loop), source and target the login's; frame: nothing reachable from the login or the audit event is modified; the same relation is asserted at every EventWriter.Write of the package",
+	}
+	m["C16"] = propDef{ID: "C16", Level: "proof",
+		Units: trk(nil, nil, nil, nil, all, all),
+		Assume: []string{"time.Time.Before is a strict order on instants (assumed contract)", "the ticker of Auditd.Read fires about once per staleDataCleanupInterval (real time, not decided)"},
+		Explain: "whole-view postconditions of both cleanup operations, proved with deletion during map iteration: the surviving keys are exactly the previous keys that are correlated or not older than the cut-off (sessions), resp. whose login is not older than the cut-off (parked logins); surviving values, all user fields, the other map and the output are unchanged; TrackerInv is preserved",
+	}
 	m["C06"] = propDef{ID: "C06", Level: "proof",
 		Lemmas: []lemmaUnit{{Name: "sshd-formats", Args: []string{"C06"}}},
 		Units: sshdUnits(
